@@ -55,6 +55,7 @@ ROW_TYPES = {'ctx': (1, 1, 1), 'ct': (1, 1, 0), 'c': (1, 0, 0), 't': (0, 1, 0),
              'x': (0, 0, 1), 'cx': (1, 0, 1), 'tx': (0, 1, 1)}
 MODULES = ('geoeligibility', 'tbrmatchedmarkets', 'tbrmmdata',
            'tbrmmdesignparameters', 'heapdict')
+_UNSET = object()
 FAULT_KINDS = ('rng_jump', 'reject', 'abandon', 'interrupt', 'mutate_snapshot',
                'mutate_returned', 'sibling')
 INTERRUPTIBLE = ('q', 'dwc', 'list_t', 'list_c', 'step', 'exhaustive',
@@ -64,14 +65,21 @@ INTERRUPTIBLE = ('q', 'dwc', 'list_t', 'list_c', 'step', 'exhaustive',
 # --------------------------------------------------------------------------
 # generation
 # --------------------------------------------------------------------------
-def _gen_panel(rng, tier, profile, stress=False):
-  if profile == 'c14':
+def _gen_panel(rng, tier, profile, stress=False, wide=False):
+  if wide:
+    # beyond platform thresholds (64-bit masks, 128/256-entry caches): many
+    # geos, nearly all of them fixed by the eligibility table so that the
+    # design space stays small
+    n_geos = rng.choice((65, 66, 70, 130))
+  elif profile == 'c14':
     n_geos = rng.choice((4, 5, 5, 6) if tier == 'thorough' else (4, 4, 5, 5))
   elif tier == 'thorough':
     n_geos = rng.choice((3, 4, 5, 5, 6, 6, 7))
   else:
     n_geos = rng.choice((3, 4, 4, 5, 5))
   style = rng.choice(('digits', 'digits', 'words', 'int'))
+  if wide and style == 'words':
+    style = 'digits'
   if style == 'words':
     pool = ['aa', 'bb', 'cc', 'dd', 'ee', 'ff', 'gg', 'hh']
     rng.shuffle(pool)
@@ -118,7 +126,19 @@ def _gen_panel(rng, tier, profile, stress=False):
           'row_order_seed': rng.randrange(10**6)}
 
 
-def _gen_elig(rng, panel, stress=False):
+def _gen_elig(rng, panel, stress=False, wide=False):
+  if wide:
+    geos = list(panel['geos'])
+    # the free geos are among the smallest as well as the largest, so that
+    # some of them sit beyond position 64 of any size-ordered index
+    by_size = sorted(range(len(geos)),
+                     key=lambda i: -sum(panel['values'][i]))
+    free = set(rng.sample(by_size[:8], 2) + rng.sample(by_size[-5:], 2))
+    rows = []
+    for i, g in enumerate(geos):
+      kind = (rng.choice(('ctx', 'ctx', 'tx', 'ct')) if i in free else 'c')
+      rows.append([g] + list(ROW_TYPES[kind]))
+    return rows
   if not stress and rng.random() < 0.45:
     return None
   mix = rng.choice(('mostly_free', 'mixed', 'fixed_heavy'))
@@ -179,6 +199,8 @@ def _gen_par(rng, panel, profile, stress=False):
       par['treatment_share_range'] = rng.choice(([0.05, 0.6], [0.1, 0.9]))
   if profile == 'c14':
     par['n_designs'] = rng.choice((1, 2, 3, 5, 8, 50))
+    if len(panel['geos']) >= 6 and rng.random() < 0.3:
+      par['n_designs'] = rng.choice((256, 257, 300))   # beyond 256
   elif maybe(0.7):
     par['n_designs'] = rng.choice((1, 2, 3, 5, 8))
   if maybe(0.15):
@@ -316,10 +338,18 @@ def generate(rng, tier, profile='faultfree'):
   # n_geos_max, budget / share ranges, mixed eligibility, impact ranking
   # different from the volume ranking) instead of drawing them independently
   stress = profile != 'c14' and rng.random() < 0.25
-  panel = _gen_panel(rng, tier, profile, stress)
-  elig = _gen_elig(rng, panel, stress)
-  par = _gen_par(rng, panel, profile, stress)
+  wide = rng.random() < 0.04
+  panel = _gen_panel(rng, tier, profile, stress, wide)
+  elig = _gen_elig(rng, panel, stress, wide)
+  par = _gen_par(rng, panel, profile, stress and not wide)
+  if wide:
+    par.pop('n_geos_max', None)
   ops, enabled = _gen_ops(rng, tier, profile, len(panel['geos']))
+  if wide:
+    # both kinds of search on the one object, whatever else happens
+    for kind in ('exhaustive', 'greedy'):
+      if not any(op['op'] == kind for op in ops):
+        ops.insert(rng.randrange(0, len(ops) - 1), {'op': kind, 'c': 0})
   return {'machine': NAME, 'profile': profile,
           'focus': 'C14' if profile == 'c14' else 'C10',
           'panel': panel, 'elig': elig, 'par': par,
@@ -371,12 +401,14 @@ class Env:
     else:
       self._elig0 = None
     self._ref_mods = None
+    self._par_overrides = {}
     self._par_kwargs = {}
     for k, v in desc['par'].items():
       self._par_kwargs[k] = tuple(v) if isinstance(v, list) else v
 
-  def set_parameters(self, kwargs):
-    self._par_kwargs = dict(kwargs)
+  def set_parameters(self, fields):
+    self._par_overrides = {k: v for k, v in fields.items()
+                           if self._par_kwargs.get(k, _UNSET) != v}
     self._ref_mods = None
 
   def frame(self):
@@ -402,7 +434,13 @@ class Env:
     return None if self._elig0 is None else self._elig0.copy(deep=True)
 
   def parameters(self, mods=None):
-    return (mods or self.mods)[3].TBRMMDesignParameters(**self._par_kwargs)
+    par = (mods or self.mods)[3].TBRMMDesignParameters(**self._par_kwargs)
+    # values an interrupted call left in the caller's object are written the
+    # way the library wrote them: by attribute, past the constructor's
+    # validation (a derived range like (1, 0) is not a legal user input)
+    for k, v in self._par_overrides.items():
+      setattr(par, k, v)
+    return par
 
   def build_reference(self):
     """A freshly built object in the run's private reference module set.
@@ -1138,16 +1176,32 @@ def simplifications(desc):
       d['ops'][i]['op'] = 'greedy'
       yield d
   panel = desc['panel']
-  if len(panel['geos']) > 2:
-    for gi in range(len(panel['geos']) - 1, -1, -1):
-      d = copy.deepcopy(desc)
-      g = d['panel']['geos'].pop(gi)
-      d['panel']['values'].pop(gi)
-      d['panel']['missing'] = [[a - (a > gi), b]
-                               for a, b in d['panel']['missing'] if a != gi]
-      if d.get('elig'):
-        d['elig'] = [r for r in d['elig'] if str(r[0]) != str(g)] or None
-      yield d
+  n_geos = len(panel['geos'])
+
+  def without(drop):
+    d = copy.deepcopy(desc)
+    keep = [i for i in range(n_geos) if i not in drop]
+    gone = {str(d['panel']['geos'][i]) for i in drop}
+    remap = {old: new for new, old in enumerate(keep)}
+    d['panel']['geos'] = [d['panel']['geos'][i] for i in keep]
+    d['panel']['values'] = [d['panel']['values'][i] for i in keep]
+    d['panel']['missing'] = [[remap[a], b] for a, b in d['panel']['missing']
+                             if a in remap]
+    if d.get('elig'):
+      d['elig'] = [r for r in d['elig'] if str(r[0]) not in gone] or None
+    return d
+
+  if n_geos > 8:
+    # many geos: drop halves and quarters before single geos
+    for parts in (2, 4, 8):
+      size = max(1, n_geos // parts)
+      for start in range(0, n_geos, size):
+        drop = set(range(start, min(n_geos, start + size)))
+        if len(drop) < n_geos - 1:
+          yield without(drop)
+  if n_geos > 2:
+    for gi in range(n_geos - 1, max(-1, n_geos - 13), -1):
+      yield without({gi})
   n_dates = len(panel['values'][0])
   for new in (max(8, n_dates // 2), n_dates - 1):
     if 8 <= new < n_dates:
